@@ -1,7 +1,7 @@
 """C18 - HTML-based contrib renderers conservatively extend HtmlRenderer (E1, differential)."""
 import re
 import itertools
-from mc import core, configs, spaces
+from mc import core, configs, spaces, trees
 
 ID = 'C18'
 TECHNIQUE = ('exhaustive enumeration of words over 8 cluster alphabets, texts over the line alphabet and the edit-1 '
@@ -37,6 +37,10 @@ def jobs(tier):
     step = 8 if tier == 'thorough' else 24
     for lo in range(0, 652, step):
         js.append(('edit', lo, lo + step, tier))
+    nt = 3 if tier == 'quick' else 4
+    for n in range(1, nt + 1):
+        ns = 1 if n < 3 else (16 if n == 3 else 128)
+        js += [('trees', n, 2 if tier == 'quick' else 3, sh, ns) for sh in range(ns)]
     return js
 
 
@@ -134,6 +138,12 @@ def run_job(job):
             for rest in itertools.product(L, repeat=n - 1):
                 run_text(r, spaces.lines_text((L[first],) + rest))
         r.sample(dict(space='lines', text=spaces.lines_text((L[first], L[0]))), 1)
+    elif kind == 'trees':
+        _, n, depth, sh, ns = job
+        for i, blocks in enumerate(trees.all_docs(n, depth)):
+            if i % ns == sh:
+                run_text(r, trees.to_markdown(blocks, trees.DEFAULTS)[0])
+        r.sample(dict(space='generated trees', nodes=n), 1)
     elif kind == 'edit':
         from checks import c02
         toks = spaces.EDIT_SMALL if job[3] == 'thorough' else ['[', '|', '$', '`']
